@@ -47,11 +47,13 @@ inductive Step
   /-- Constant (any `value*` attribute) or initializer: `propagate_values` returns the embedded array
       whatever the backend setting; `ty` is what type inference said. -/
   | constant (key : String) (ty : Option Ty) (p : Payload)
+  /-- `traits`: sampling operator / subgraph-carrying operator (see `Traits`). -/
   | standard (sel : BackendSel) (inputs : List VarRef) (inNames : List String)
-      (outs : List (String × Option Ty)) (hasSubgraph : Bool) (b : Backend)
+      (outs : List (String × Option Ty)) (traits : Traits) (b : Backend)
       (sem : List Payload → String → Option Payload)
+  /-- `traits.inlineControlFlow`: the inlined graph contains a node with a subgraph attribute. -/
   | inline (sel : BackendSel) (inputs : List VarRef) (inNames : List String) (gnames : List String)
-      (outs : List (String × Option Ty)) (b : Backend)
+      (outs : List (String × Option Ty)) (traits : Traits) (b : Backend)
       (sem : List Payload → String → Option Payload)
 
 /-- The singleton-scope view of an input Var. -/
@@ -78,14 +80,14 @@ def step (v : Variant) (st : State) : Step → Except Exc State
     let outs := merge v [(key, p)] [⟨key, ty, none⟩]
     .ok (st ++ [{ kind := .constant, inputs := [], outputs := outs.map (·.1),
                   sem := fun _ k => if k = key then some p.normalise else none }])
-  | .standard sel inputs inNames outs hasSub b sem =>
+  | .standard sel inputs inNames outs traits b sem =>
     if !inputsExist st inputs || inNames.length != inputs.length then .error .typeError else
-    match construct v sel .standard (mkCtx st inputs inNames outs hasSub) b with
+    match construct v sel .standard (mkCtx st inputs inNames outs traits.skips) b with
     | .error e => .error e
     | .ok res => .ok (st ++ [{ kind := .standard, inputs := inputs, outputs := res.map (·.1), sem := sem }])
-  | .inline sel inputs inNames gnames outs b sem =>
+  | .inline sel inputs inNames gnames outs traits b sem =>
     if !inputsExist st inputs || inNames.length != inputs.length then .error .typeError else
-    match construct v sel (.inline gnames) (mkCtx st inputs inNames outs false) b with
+    match construct v sel (.inline gnames) (mkCtx st inputs inNames outs traits.skips) b with
     | .error e => .error e
     | .ok res => .ok (st ++ [{ kind := .inline, inputs := inputs, outputs := res.map (·.1), sem := sem }])
 
